@@ -5,6 +5,7 @@ import HtpModel.Lemmas.OutInv
 import HtpModel.Lemmas.OwedOut
 import HtpModel.Pinned.Eq
 import HtpModel.Lemmas.History
+import HtpModel.Lemmas.CFunsBuffer
 
 namespace Htp.C10
 open Htp.Conn Htp.Gen
@@ -169,6 +170,56 @@ theorem C10_history_buffer_bounded (cfg : Cfg) (calls pre : List Call) (hsz : Si
 example :
     let c := runCalls {} {} [.open, .req (b!"GET /"), .res (b!"HTTP/1.1 2")]
     inBufLen c = 5 ∧ outBufLen c = 10 := by decide
+
+/-- **C10 (the buffering function of the code itself)**: htp_connp_req_buffer, translated from the current source of htp_request.c (the fields of
+    `htp_connp_t` it touches as state, `in_buf` with malloc / realloc / memcpy, allocation success a parameter), for ALL field values within
+    2^62: it returns HTP_OK or HTP_ERROR; when it returns HTP_OK either the bytes set aside plus the pending header are within
+    `field_limit_hard`, the buffer's recorded size is its real length and the consume cursor has moved to the read cursor - or nothing at all was
+    touched (NULL chunk / nothing to set aside); when it returns HTP_ERROR the size and the cursor are unchanged and, if allocation works, the
+    sum really was above the limit: all or nothing. `htp_connp_res_buffer` is the same function with the `out_` fields except that it has no
+    `len == 0` early return (a difference of the source that the model mirrors with its `skipEmpty` flag). -/
+theorem C10_translated_req_buffer (fuel : Nat) (cur : Bytes) (dnull : Int) (buf : List Int)
+    (bnull size consume read hlen hnull hard alloc : Int)
+    (hc0 : 0 ≤ consume) (hcr : consume ≤ read) (hr : read < 4611686018427387904)
+    (hs0 : 0 ≤ size) (hs : size < 4611686018427387904) (hh0 : 0 ≤ hlen) (hh : hlen < 4611686018427387904)
+    (r : Int) (s : Htp.Gen.C.St_htp_connp_req_buffer)
+    (h : Htp.Gen.C.htp_connp_req_buffer fuel (connp_in_current_data := cur) (connp_in_current_data_null := dnull) (connp_in_buf := buf)
+        (connp_in_buf_null := bnull) (connp_in_buf_size := size) (connp_in_current_consume_offset := consume)
+        (connp_in_current_read_offset := read) (connp_in_header_len := hlen) (connp_in_header_null := hnull)
+        (connp_in_tx_cfg_field_limit_hard := hard) (alloc_ok := alloc) = some (r, s)) :
+    (r = 1 ∨ r = -1) ∧ s.connp_in_current_read_offset = read ∧
+    (r = 1 →
+      (s.connp_in_buf_size + (if hnull = 0 then hlen else 0) ≤ hard ∧ s.connp_in_buf_size ≤ size + (read - consume) ∧
+        (s.connp_in_buf.length : Int) = s.connp_in_buf_size ∧ s.connp_in_buf_null = 0 ∧
+        s.connp_in_current_consume_offset = read) ∨
+      (s.connp_in_buf = buf ∧ s.connp_in_buf_null = bnull ∧ s.connp_in_buf_size = size ∧
+        s.connp_in_current_consume_offset = consume ∧ (dnull ≠ 0 ∨ read - consume = 0))) ∧
+    (r = -1 →
+      s.connp_in_buf_size = size ∧ s.connp_in_current_consume_offset = consume ∧
+      (s.connp_in_buf_null ≠ 0 ↔ bnull ≠ 0) ∧ (bnull = 0 → s.connp_in_buf = buf) ∧
+      (alloc ≠ 0 → size + (read - consume) + (if hnull = 0 then hlen else 0) > hard)) :=
+  Htp.CFuns.htp_connp_req_buffer_c10 fuel cur dnull buf bnull size consume read hlen hnull hard alloc hc0 hcr hr hs0 hs hh0 hh r s h
+
+/-- ... and it is the model's `Dir.buffer`: HTP_ERROR exactly when the model refuses (so `C10_buffer_bound` / `C10_buffer_all_or_nothing` and the
+    whole-history bound above speak about this code), for the request function (`skipEmpty = true`) and its response twin (`false`) -/
+theorem C10_translated_buffer_is_model (fuel : Nat) (d : Dir) (hard : Nat)
+    (hc0 : 0 ≤ d.consume) (hcr : d.consume ≤ d.read) (hrl : d.read ≤ d.cur.length) (hl : d.cur.length < 4611686018427387904)
+    (hbl : ∀ b, d.buf = some b → b.length < 4611686018427387904)
+    (hhl : ∀ h, d.header = some h → h.length < 4611686018427387904) :
+    (((Htp.Gen.C.htp_connp_req_buffer fuel (connp_in_current_data := d.cur) (connp_in_current_data_null := if d.curNull then 1 else 0)
+        (connp_in_buf := match d.buf with | some b => Htp.CSem.memOf b | none => [])
+        (connp_in_buf_null := if d.buf.isNone then 1 else 0) (connp_in_buf_size := ((d.buf.map (·.length)).getD 0 : Nat))
+        (connp_in_current_consume_offset := d.consume) (connp_in_current_read_offset := d.read)
+        (connp_in_header_len := ((d.header.map (·.length)).getD 0 : Nat)) (connp_in_header_null := if d.header.isNone then 1 else 0)
+        (connp_in_tx_cfg_field_limit_hard := hard) (alloc_ok := 1)).map (·.1) = some (-1)) ↔ d.buffer hard true = none) ∧
+    (((Htp.Gen.C.htp_connp_res_buffer fuel (connp_out_current_data := d.cur) (connp_out_current_data_null := if d.curNull then 1 else 0)
+        (connp_out_buf := match d.buf with | some b => Htp.CSem.memOf b | none => [])
+        (connp_out_buf_null := if d.buf.isNone then 1 else 0) (connp_out_buf_size := ((d.buf.map (·.length)).getD 0 : Nat))
+        (connp_out_current_consume_offset := d.consume) (connp_out_current_read_offset := d.read)
+        (connp_out_header_len := ((d.header.map (·.length)).getD 0 : Nat)) (connp_out_header_null := if d.header.isNone then 1 else 0)
+        (connp_out_tx_cfg_field_limit_hard := hard) (alloc_ok := 1)).map (·.1) = some (-1)) ↔ d.buffer hard false = none) :=
+  ⟨Htp.CFuns.htp_connp_req_buffer_error_iff fuel d hard hc0 hcr hrl hl hbl hhl,
+   Htp.CFuns.htp_connp_res_buffer_error_iff fuel d hard hc0 hcr hrl hl hbl hhl⟩
 
 /-- **C10 (the constants are the reviewed ones)**: every constant the translator reads from the current source - among them the limits (field limits, repetition and folding caps, list sizes) -
     equals its reviewed snapshot (lean/HtpModel/Pinned); the model follows a regenerated constant, so this is what notices a changed one -/
